@@ -1631,3 +1631,105 @@ def check_c17(tier, replay):
                    "file-system backend on both sides for the blob comparison"]
     vlib.write_evidence(prop, tier, "model_checking", cover, assumptions, time.time() - t0, len(violations))
     return vlib.finish(prop, violations, [])
+
+
+@register("C14")
+def check_c14(tier, replay):
+    prop = "C14"
+    t0 = time.time()
+    wd = vlib.workdir("%s_%s" % (prop, tier))
+    scratch = vlib.scratch_base(prop)
+    known = vlib.known_keys(prop)
+    env = {"VERIF_KNOWN": ",".join(sorted(known))}
+    if replay:
+        vlib.cargo_build()
+        v = json.load(open(replay))
+        d = v.get("detail", v)
+        pfile = os.path.join(wd, "replay.ndjson")
+        with open(pfile, "w") as f:
+            f.write(json.dumps(d["case"]) + "\n")
+        summ = vlib.run_harness([vlib.harness_bin("replay"), "codec", pfile, scratch], env=env)
+        for x in summ["violations"]:
+            log("REPLAY-DIVERGENCE " + x["summary"][:1500])
+        return 1 if summ["violations"] else 0
+    # (1) the codec design over every shape of the schema; TLC also prints the schema and every shape
+    cfg = vlib.render_cfg("MC_Codec.cfg", {"EmitCases": "FALSE"}, os.path.join(wd, "prop.cfg"))
+    r = vlib.run_tlc("MC_Codec", cfg, prop + "p", timeout_s=1200, want_tags=("SCHEMA",))
+    if r.violated:
+        raise ToolError("Codec spec violates %s" % r.violated)
+    for a in ("EncodeA", "EncodeB", "Decode"):
+        if r.coverage.get(a, (0, 0))[0] == 0:
+            raise ToolError("action %s never taken in Codec model" % a)
+    schema = (r.tagged.get("SCHEMA") or [None])[0]
+    if not schema:
+        raise ToolError("TLC did not print the schema")
+    cases = []
+    cfg = vlib.render_cfg("MC_Codec.cfg", {"EmitCases": "TRUE"}, os.path.join(wd, "emit.cfg"))
+    _strip_invariants(cfg, ["RoundTrip", "Deterministic", "Canonical"])
+    vlib.run_tlc("MC_Codec", cfg, prop + "e", timeout_s=1200, coverage=False, workers=1,
+                 tag_sink=lambda tag, obj: cases.append(obj) if tag == "CASE" else None)
+    uniq = {json.dumps(c, sort_keys=True): c for c in cases}
+    cases = [uniq[k] for k in sorted(uniq)]
+    vlib.cargo_build()
+    # (2) the schema of the specification is the catalogue of the harness
+    out = subprocess.run([vlib.harness_bin("replay"), "codec-catalog"], stdout=subprocess.PIPE, text=True, timeout=120)
+    if out.returncode != 0:
+        raise ToolError("replay codec-catalog failed")
+    cat = json.loads(out.stdout.strip().splitlines()[-1])
+
+    def norm(s):
+        return {t: {"format": v["format"], "dims": {d: sorted(c) for d, c in v["dims"].items()}} for t, v in s.items()}
+    if norm(cat) != norm(schema):
+        diff = sorted(set(cat) ^ set(schema))
+        raise ToolError("CodecSchema.tla and the harness catalogue differ (types only on one side: %s)" % diff[:10])
+    expect = 0
+    for t, v in schema.items():
+        n = 1
+        for c in v["dims"].values():
+            n *= len(c)
+        expect += n
+    if len(cases) != expect:
+        raise ToolError("TLC emitted %d shapes, the schema has %d" % (len(cases), expect))
+    # (3) every shape on the real codecs
+    chunks = 8
+    inputs = []
+    for i in range(chunks):
+        part = cases[i::chunks]
+        p = os.path.join(wd, "cases_%02d.ndjson" % i)
+        with open(p, "w") as f:
+            for c in part:
+                f.write(json.dumps(c) + "\n")
+        inputs.append(p)
+    rounds = 1 if tier == "quick" else 3
+    summs = []
+    for _ in range(rounds):
+        summs.append(vlib.run_harness_parallel(
+            lambda p: [vlib.harness_bin("replay"), "codec", p, os.path.join(scratch, os.path.basename(p)[:8])],
+            inputs, jobs=8, timeout_s=3000, env=env))
+    summ = vlib.merge_summaries(summs) if rounds > 1 else summs[0]
+    formats = {}
+    for t, v in schema.items():
+        formats[v["format"]] = formats.get(v["format"], 0) + 1
+    cover = {
+        "states": r.distinct, "transitions": r.generated,
+        "traces_validated_against_impl": len(cases) * rounds,
+        "evaluations": summ["steps"], "distinct_nontrivial": len(set(summ["nontrivial_keys"])),
+        "rule": "Codec.tla: a value is a choice for every dimension of its type in CodecSchema.tla (enum variant, "
+                "optional members, collection sizes, string / number / time classes); two devices encode it, one "
+                "encoding is decoded; TLC checks RoundTrip, Deterministic and Canonical on every shape and prints every "
+                "shape. The schema printed by TLC must equal the harness catalogue. Every shape is built five times "
+                "independently on the real types and checked on sos_core::encode/decode (binary), "
+                "WireEncodeDecode (protobuf) and EventRecordRow <-> EventRecord (in memory and through sqlite): "
+                "decode(encode(v)) = v, the independent builds encode to the same bytes, re-encoding every decoding "
+                "gives the same bytes, nothing panics. Noop events are placeholders the codec refuses to encode: the "
+                "refusal is the expected outcome for variant=Noop.",
+        "samples": summ["samples"][:3], "exhaustive": True, "shapes": len(cases),
+        "types": len(schema), "types_per_format": formats, "rounds": rounds,
+        "counters": {k: v for k, v in summ["counters"].items() if not k.startswith("ok_")},
+    }
+    assumptions = ["the value space is spanned by the dimensions of CodecSchema.tla (74 entries); relay / pairing "
+                   "packets (plain prost messages) and Auth as a standalone type are not covered",
+                   "determinism is checked between independent builds inside one process"]
+    vlib.write_evidence(prop, tier, "model_checking", cover, assumptions, time.time() - t0, len(summ["violations"]))
+    known_hits = [dict(k2, **known[k2["key"]]) for k2 in summ["known"] if k2["key"] in known]
+    return vlib.finish(prop, summ["violations"], known_hits)
